@@ -77,13 +77,20 @@ def check_layered(case):
     import sempler.utils as utils
     from props.c15 import _layered
     A = _layered(case["layers"], case["a"], case.get("weighted", False))
+    if case.get("dtype8"):
+        A = A.astype(case["dtype8"])
+    if case.get("marry"):
+        # some of the first layer's nodes joined by undirected edges: those pairs are shielded (no v-structure)
+        first = np.nonzero((A != 0).sum(axis=0) == 0)[0]
+        for a_, b_ in zip(first[::2], first[1::2]):
+            A[a_, b_] = A[b_, a_] = 1
     keep = A.copy()
     p = len(A)
-    D = (A != 0)
+    D = (A != 0) & (A.T == 0)
     Di = D.astype(np.int64)
     common = (Di @ Di.T) > 0                     # i and j have a common child
     np.fill_diagonal(common, False)
-    sk = D | D.T
+    sk = (A != 0) | (A.T != 0)
     want_moral = sk | common
     mg = np.asarray(must(lib(utils.moral_graph, A), "moral_graph(layers %s)" % case["layers"]))
     if mg.shape != (p, p) or not np.array_equal(mg != 0, want_moral):
@@ -295,7 +302,7 @@ def plan(tier, seed):
     jobs = []
     for n, (p, miss) in enumerate([(447, 1), (448, 1), (500, 1), (500, 0), (600, 3), (300, 1)] + ([(1000, 2), (1415, 1)] if tier == "thorough" else [])):
         jobs.append({"sub": "big", "seed": seed, "p": p, "n_missing": miss, "index": n, "cost": 9})
-    for k, layers in enumerate([[10, 190], [3, 150, 2], [140, 2], [2, 129, 3]] + ([[12, 300], [260, 3]] if tier == "thorough" else [])):
+    for k, layers in enumerate([[10, 190], [3, 150, 2], [140, 2], [2, 129, 3], [2, 256], [3, 512], [4, 1100]] + ([[12, 300], [260, 3]] if tier == "thorough" else [])):
         jobs.append({"sub": "layered", "seed": seed, "layers": layers, "index": k, "cost": 12})
     for p in (1, 2, 3):
         jobs.append({"sub": "pdag_exh", "p": p, "shard": 0, "nshards": 1, "seed": seed, "cost": 1})
@@ -327,8 +334,12 @@ def run(job):
         import math
         p = sum(job["layers"])
         a = next(x for x in range(5 + job["seed"] % 7, 5 + job["seed"] % 7 + 4 * p) if math.gcd(x, p) == 1)
-        for weighted in (False, True):
-            case = {"sub": "layered", "layers": job["layers"], "a": a, "weighted": weighted}
+        for weighted in (False, True, "uint8", "int8", "marry"):
+            case = {"sub": "layered", "layers": job["layers"], "a": a, "weighted": weighted is True}
+            if weighted in ("uint8", "int8"):
+                case["dtype8"] = weighted
+            if weighted == "marry":
+                case["marry"] = True
             try:
                 acc.record(case, check(case), True, by_construction=True)
             except Violation as v:
